@@ -64,7 +64,7 @@ PROPERTIES = {
     },
     "C13": {
         "units": ["U-charcount"],
-        "claim": "For every character sequence and every byte index: get_line_column_at_index returns the 0-based line (newlines before) and character column (characters since the last newline) of the character that starts at that byte index, whatever the byte lengths of the characters before it; get_index_range_of_line returns the byte offsets of the first and one-past-last character of the requested line (both character boundaries, begin <= end); get_line_count = 1 + number of newlines. Span::join is the hull of two spans of one file with dummy spans neutral; before/after/length/location as stated.",
+        "claim": "For every character sequence and every byte index: get_line_column_at_index returns the 0-based line (newlines before) and character column (characters since the last newline) of the character that starts at that byte index, whatever the byte lengths of the characters before it; get_index_range_of_line returns the byte offsets of the first and one-past-last character of the requested line (both character boundaries, begin <= end); get_line_count = 1 + number of newlines. Span::join is the hull of two spans of one file with dummy spans neutral; before/after/length/location as stated. Report::get_line_info: the line/column pairs a diagnostic prints are the line and character column of the span's start and end byte indices in the file's text.",
         "not_reached": "that spans are created on character boundaries (syntax::Walker), that CharCounter::new's `chars` is the character sequence of `src` and str::get succeeds on boundaries (std), that the first error is on the faulty line (whole pipeline), included files, the message tree printer",
         "trusted_base": ["vstd's specification of char::len_utf8 (1..=4 bytes)", "CharCounter::wf: 4 * chars.len() fits in usize (allocation limit of Vec<char>) is a precondition not checked at the call sites"],
     },
